@@ -1219,6 +1219,10 @@ where
     }
 
     fn visit_mut_stmts(&mut self, stmts: &mut Vec<Stmt>) {
+        // declarations pending from the enclosing scope must not be drained here
+        let outer_consts = mem::take(&mut self.injecting_consts);
+        let outer_vars = mem::take(&mut self.injecting_vars);
+
         stmts.visit_mut_children_with(self);
 
         if !self.injecting_consts.is_empty() {
@@ -1245,13 +1249,22 @@ where
             );
             self.slot_counter = 1;
         }
+
+        self.injecting_consts = outer_consts;
+        self.injecting_vars = outer_vars;
     }
 
-    fn visit_mut_arrow_expr(&mut self, arrow_expr: &mut ArrowExpr) {
-        arrow_expr.visit_mut_children_with(self);
+    // body of an arrow function
+    fn visit_mut_block_stmt_or_expr(&mut self, body: &mut BlockStmtOrExpr) {
+        // declarations pending from the parameters or the enclosing scope
+        // must not be drained into the body
+        let outer_consts = mem::take(&mut self.injecting_consts);
+        let outer_vars = mem::take(&mut self.injecting_vars);
+
+        body.visit_mut_children_with(self);
 
         if !self.injecting_consts.is_empty() || !self.injecting_vars.is_empty() {
-            if let BlockStmtOrExpr::Expr(ret) = &*arrow_expr.body {
+            if let BlockStmtOrExpr::Expr(ret) = &*body {
                 let mut stmts = Vec::with_capacity(3);
 
                 if !self.injecting_consts.is_empty() {
@@ -1278,13 +1291,16 @@ where
                     arg: Some(ret.clone()),
                 }));
 
-                arrow_expr.body = Box::new(BlockStmtOrExpr::BlockStmt(BlockStmt {
+                *body = BlockStmtOrExpr::BlockStmt(BlockStmt {
                     span: DUMMY_SP,
                     stmts,
                     ..Default::default()
-                }));
+                });
             }
         }
+
+        self.injecting_consts = outer_consts;
+        self.injecting_vars = outer_vars;
     }
 
     fn visit_mut_expr(&mut self, expr: &mut Expr) {
